@@ -60,7 +60,9 @@ def gen(rng: random.Random, k: int, tier: str) -> dict:
     ws = specs.gen_workspace(rng, max_channels=2, max_samples=2, max_bins=3, n_meas=(1, 2))
     dup = rng.choice([None, None, None, None, "name", "values"])
     ps, dup = G.gen_patchset(rng, ws, dup=dup)
-    cfg = {"dup": dup, "fault_rate": rng.choice([0.0, 0.15, 0.3])}
+    # object mode: verify/apply are handed one long-lived in-memory object that is corrupted and restored
+    # *in place* between calls (a user holding a workspace in a session), instead of a freshly parsed file
+    cfg = {"dup": dup, "fault_rate": rng.choice([0.0, 0.15, 0.3]), "object_mode": rng.choice([None, None, "dict", "workspace"])}
     ops = [{"op": "publish", "ws": ws, "ps": ps}, {"op": "load"}]
     names = [p["metadata"]["name"] for p in ps["patches"]]
     tuples = [p["metadata"]["values"] for p in ps["patches"]]
@@ -158,6 +160,7 @@ class World:
         self.loaded_digests = None
         self.docid = None
         self.fault = None
+        self.obj = None
 
     def end(self):
         self.ps = None
@@ -169,6 +172,56 @@ class World:
     def _ws(self):
         return json.loads(self.ws_text)
 
+    def _inplace(self, tgt, src):
+        """make container tgt equal to src (same key order) while keeping the identity of tgt and of
+        nested containers wherever the shapes allow"""
+        if isinstance(tgt, dict) and isinstance(src, dict):
+            old = dict(tgt)
+            tgt.clear()
+            for k, v in src.items():
+                if k in old and type(old[k]) is type(v) and isinstance(v, (dict, list)):
+                    self._inplace(old[k], v)
+                    tgt[k] = old[k]
+                else:
+                    tgt[k] = copy.deepcopy(v)
+        elif isinstance(tgt, list) and isinstance(src, list):
+            old = list(tgt)
+            del tgt[:]
+            for i, v in enumerate(src):
+                if i < len(old) and type(old[i]) is type(v) and isinstance(v, (dict, list)):
+                    self._inplace(old[i], v)
+                    tgt.append(old[i])
+                else:
+                    tgt.append(copy.deepcopy(v))
+
+    def _sync_obj(self):
+        """object mode: bring the long-lived object to the content of the 'file', in place"""
+        mode = self.cfg.get("object_mode")
+        if not mode or self.ws_text is None:
+            return
+        doc = self._ws()
+        if self.obj is None:
+            try:
+                self.obj = self.pyhf.Workspace(doc) if mode == "workspace" else doc
+            except Exception:
+                self.obj = doc
+        else:
+            self._inplace(self.obj, doc)
+        if core.canon(dict(self.obj)) != core.canon(doc):
+            raise core.HarnessError("object mode out of sync")
+
+    def _arg(self, doc, as_):
+        """what is handed to verify/apply"""
+        if self.cfg.get("object_mode") and self.obj is not None:
+            self.ctx.probe("object_mode_call")
+            return self.obj
+        if as_ == "workspace":
+            try:
+                return self.pyhf.Workspace(doc)
+            except Exception:
+                return doc
+        return doc
+
     def _dirty(self):
         return core.canon(self._ws()) != core.canon(self.pub_ws)
 
@@ -179,6 +232,8 @@ class World:
         self.docid = core.short(core.canon([self.pub_ws, self.pub_ps]), 12)
         self.ps = None
         self.fault = None
+        self.obj = None
+        self._sync_obj()
         return self.docid
 
     def op_restore(self, op):
@@ -186,6 +241,7 @@ class World:
             return "noop"
         self.ws_text = json.dumps(self.pub_ws)
         self.fault = None
+        self._sync_obj()
         return "ok"
 
     def op_restore_ps(self, op):
@@ -202,6 +258,7 @@ class World:
         self.ws_text = json.dumps(doc, indent=r.choice([None, 1, 4]), separators=r.choice([None, (",", ":"), (" , ", " : ")]))
         self.ctx.fault("reserialise")
         self._after_reser = True
+        self._sync_obj()
         return "ok"
 
     def _locate(self, doc, path):
@@ -224,6 +281,7 @@ class World:
         self.ws_text = json.dumps(doc)
         self.fault = ("flip_leaf", tuple(op["path"]))
         self.ctx.fault("flip_leaf")
+        self._sync_obj()
         return "ok"
 
     def op_add_key(self, op):
@@ -242,6 +300,7 @@ class World:
         self.ws_text = json.dumps(doc)
         self.fault = ("add_key", tuple(op["path"]))
         self.ctx.fault("add_key")
+        self._sync_obj()
         return "ok"
 
     def op_remove_key(self, op):
@@ -258,6 +317,7 @@ class World:
         self.ws_text = json.dumps(doc)
         self.fault = ("remove_key", tuple(op["path"]))
         self.ctx.fault("remove_key")
+        self._sync_obj()
         return "ok"
 
     def op_flip_digest(self, op):
@@ -369,12 +429,9 @@ class World:
         doc = self._ws()
         snap = copy.deepcopy(doc)
         want_ok = self._expect_verified(doc)
-        arg = doc
-        if op["as"] == "workspace":
-            try:
-                arg = pyhf.Workspace(doc)
-            except Exception:
-                arg = doc  # corrupted beyond the schema: hand over the raw document
+        arg = self._arg(doc, op["as"])
+        snap = copy.deepcopy(dict(arg))
+        doc = arg
         try:
             self.ps.verify(arg)
             ok, exc = True, None
@@ -394,7 +451,7 @@ class World:
             if not ok:
                 ctx.probe("verify_dirty_rejected")
                 ctx.probe("verify_exc_" + type(exc).__name__)
-        ctx.check(doc == snap and list(doc) == list(snap), "nonmutation", {"cls": "verify_mutates"}, "verify modified its input")
+        ctx.check(dict(doc) == snap and list(doc) == list(snap), "nonmutation", {"cls": "verify_mutates"}, "verify modified its input")
         return "ok" if ok else "rejected"
 
     def op_apply(self, op):
@@ -408,9 +465,7 @@ class World:
             return "noop"
         doc = self._ws()
         want_ok = self._expect_verified(doc)
-        arg = doc
-        if op["as"] == "workspace" and want_ok:
-            arg = pyhf.Workspace(doc)
+        arg = self._arg(doc, op["as"] if want_ok else "dict")
         snap = json.dumps(arg)  # order-preserving snapshot
         expected, exp_err = None, None
         if want_ok:
